@@ -447,10 +447,9 @@ pub fn draw_literal(t: &mut Tape, p: &Profile) -> MTerm {
             MTerm::Lit(lex, dt)
         }
         _ => {
-            // terms are built through the validating constructors: keep only tags they accept
-            // (C08 feeds the same pool to the parsers as raw text, unfiltered)
+            // every pool entry is well-formed BCP47: a tag the toolkit's validator refuses is
+            // reported when the term is built (not silently replaced)
             let tag = TAG_POOL[t.below(TAG_POOL.len())];
-            let tag = if sophia_api::term::LanguageTag::new(tag).is_ok() { tag } else { "en" };
             MTerm::Lang(lex, tag.to_string())
         }
     }
